@@ -1,25 +1,124 @@
 import GbVerif.Model.Cpu
 import GbVerif.Spec.SM83
 import GbVerif.Proofs.Enum
+import GbVerif.Proofs.Sm83Main
 /-!
 C05 — interpreter data semantics match the SM83 instruction set for all operands.
+
+The interpreter model (`Model/Interp.lean`, mirror of `run_op`) is proved to refine the independent SM83
+specification (`Spec/SM83.lean`) for every defined encoding (245 unprefixed + 256 CB-prefixed), every operand
+byte, every register/flag value and every bus behaviour.  `abs` maps the interpreter's AF/BC/DE/HL/SP/IP fields
+to A F B C D E H L SP PC; `WF` says every pair is a 16-bit value and the low nibble of F is zero (`C05.WF`,
+`C05.abs` are defined in `Proofs/Sm83Abs.lean`).  The only hypothesis on the bus is that reads return bytes.
 -/
 namespace GbVerif.C05
 open GbVerif.Enum GbVerif.Interp
-
-/-- well-formed register file: every pair is a 16-bit value and the low nibble of F is zero -/
-def WF (r : Regs) : Prop :=
-  r.af < 65536 ∧ r.af % 16 = 0 ∧ r.bc < 65536 ∧ r.de < 65536 ∧ r.hl < 65536 ∧ r.sp < 65536 ∧ r.ip < 65536
+open GbVerif.SM83 (Cpu mkF flagC)
 
 /-- DAA: for every accumulator value and every flag nibble the interpreter's `interp_daa` produces the SM83
 decimal-adjust result and flags (4096 cases enumerated by the kernel) -/
 theorem daa_spec : ∀ n, n < 2^12 →
     let af := (n / 16) * 256 + (n % 16) * 16
-    (daa { af := af }).af = (SM83.daa (af / 256) (af % 256)).1 * 256 + (SM83.daa (af / 256) (af % 256)).2 := by
-  intro n hn
-  have := forall_lt_of_allRange (fun n =>
-    let af := (n / 16) * 256 + (n % 16) * 16
-    (daa { af := af }).af == (SM83.daa (af / 256) (af % 256)).1 * 256 + (SM83.daa (af / 256) (af % 256)).2) 12 (by decide +kernel) n hn
-  simpa using this
+    (daa { af := af }).af = (SM83.daa (af / 256) (af % 256)).1 * 256 + (SM83.daa (af / 256) (af % 256)).2 :=
+  daa_enum
+
+/-- the eight accumulator operations (ADD ADC SUB SBC AND XOR OR CP), for every accumulator, operand byte and flag
+value: result and Z/N/H/C equal the SM83 `alu[y]` definition, and the register file stays well-formed -/
+theorem alu_spec (r : Regs) (hr : WF r) (y v : Nat) (hv : v < 256) :
+    abs (aluModel y r v) = SM83.alu (abs r) y v ∧ WF (aluModel y r v) := by
+  have h := aluModel_conc (cwf_abs hr) r.cycles y v hv
+  rw [conc_abs hr] at h
+  have w := cwf_alu (cwf_abs hr) y v hv
+  rw [h]; exact ⟨abs_conc w _, wf_conc w _⟩
+
+example : WF { af := 0x3A10, bc := 0xC6FF, de := 1, hl := 0xFFFF, sp := 0xFFFE, ip := 0x0150 } := by unfold WF; decide
+example : abs (aluModel 1 { af := 0x3A10, bc := 0xC6FF } 0xC6) = { a := 0x01, f := 0x30, b := 0xC6, c := 0xFF } := by decide
+
+/-- the eight rotate/shift/swap primitives (RLC RRC RL RR SLA SRA SWAP SRL), for every byte and carry-in: result
+and flags equal the SM83 `rot[y]` definition -/
+theorem rot_spec (r : Regs) (hr : WF r) (y v : Nat) (hy : y < 8) (hv : v < 256) :
+    ((rotModel y v r.af).1, mkF (decide ((rotModel y v r.af).1 = 0)) false false (rotModel y v r.af).2) =
+      SM83.rot (abs r).f y v := by
+  have h := rotModel_conc (cwf_abs hr) r.cycles y v hy hv
+  rw [conc_abs hr] at h
+  rw [h, rot_eq]
+
+example : rotModel 2 0x80 0x0010 = (0x01, true) := by decide
+
+/-- 16-bit add (ADD HL,rp): result modulo 65536, carry out of bit 15, half-carry out of bit 11 -/
+theorem add16_spec (a b : Nat) :
+    carryAdd16 a b = ((a + b) % 65536, decide (a + b ≥ 65536), decide (a % 4096 + b % 4096 ≥ 4096)) :=
+  carryAdd16_eq a b
+
+/-- SP + signed 8-bit offset (ADD SP,e / LD HL,SP+e): the 16-bit result is the SM83 sign-extended sum and the
+carry / half-carry are those of the unsigned low-byte addition, for every SP and every offset byte -/
+theorem sp_offset_spec (sp e : Nat) (he : e < 256) :
+    addSigned sp e = ((SM83.spPlus sp e).1, decide (sp % 256 + e ≥ 256), decide (sp % 16 + e % 16 ≥ 16)) :=
+  addSigned_eq sp e he
+
+example : addSigned 0x0001 0xFF = (0x0000, true, true) := by decide
+
+/-- POP AF: the low nibble of F is masked off, every other bit of the popped word is kept -/
+theorem pop_af_masks_f (v : Nat) (c : Cpu) (k : Nat) (hv : v < 65536) (hc : CWF c) :
+    setReg16 (conc c k) .AF (if Reg16.AF == Reg16.AF then v &&& 0xfff0 else v) =
+      conc { c with a := v / 256, f := v % 256 / 16 * 16 } k ∧ CWF { c with a := v / 256, f := v % 256 / 16 * 16 } :=
+  pop_af v c k hv hc
+
+/-- **C05/C06 main theorem (spec ⟶ model).**  For any bus whose reads return bytes, any defined opcode `b0` with
+any operand bytes `b1 b2`, and any well-formed register file `r`: if the SM83 instruction yields state `c`, memory
+`m₁`, `cyc` machine cycles and outcome `out`, then the interpreter step (`decode`; `run_op`; PC mask; base clocks)
+yields registers `r'` with `abs r' = c` (A, F incl. Z/N/H/C, B…L, SP, PC), the same memory, status `statusOf out`,
+a well-formed `r'` and exactly `cyc` more cycles; a bus panic of the SM83 instruction is the interpreter's panic. -/
+theorem step_refines_spec {β : Type} (B : BusOps β) (M : SM83.Mem β) (hR : M.read = B.read) (hW : M.write = B.write)
+    (hB : ByteBus B) (b0 b1 b2 : Nat) (h0 : b0 < 256) (h1 : b1 < 256) (h2 : b2 < 256)
+    (hu : ¬ SM83.isUndefined b0 = true) (r : Regs) (hr : WF r) (m : β) :
+    (∀ c m₁ cyc out, SM83.step M (abs r) m b0 b1 b2 = .ok (c, m₁, cyc, out) →
+      ∃ r', stepModel B b0 b1 b2 r m = .ok (r', m₁, statusOf out) ∧ abs r' = c ∧ WF r' ∧ r'.cycles = r.cycles + cyc) ∧
+    (∀ e, SM83.step M (abs r) m b0 b1 b2 = .error e → stepModel B b0 b1 b2 r m = .error e) :=
+  step_refines B M hR hW hB b0 b1 b2 h0 h1 h2 hu r hr m
+
+/-- **Main theorem (model ⟶ spec).**  Whenever the interpreter step succeeds, the SM83 instruction run from the
+abstracted registers succeeds with exactly the abstraction of the interpreter's new registers, the same memory,
+status and cycle count. -/
+theorem step_refines_impl {β : Type} (B : BusOps β) (M : SM83.Mem β) (hR : M.read = B.read) (hW : M.write = B.write)
+    (hB : ByteBus B) (b0 b1 b2 : Nat) (h0 : b0 < 256) (h1 : b1 < 256) (h2 : b2 < 256)
+    (hu : ¬ SM83.isUndefined b0 = true) (r : Regs) (hr : WF r) (m : β) (r' : Regs) (m' : β) (st : Nat)
+    (hm : stepModel B b0 b1 b2 r m = .ok (r', m', st)) :
+    ∃ cyc out, SM83.step M (abs r) m b0 b1 b2 = .ok (abs r', m', cyc, out) ∧ st = statusOf out ∧ WF r' ∧
+      r'.cycles = r.cycles + cyc :=
+  step_refines_model B M hR hW hB b0 b1 b2 h0 h1 h2 hu r hr m r' m' st hm
+
+/-- register pairs always hold values in 0..65535 (and F keeps a zero low nibble): well-formedness is preserved
+by every defined instruction -/
+theorem regs_wf {β : Type} (B : BusOps β) (hB : ByteBus B) (b0 b1 b2 : Nat) (h0 : b0 < 256) (h1 : b1 < 256) (h2 : b2 < 256)
+    (hu : ¬ SM83.isUndefined b0 = true) (r : Regs) (hr : WF r) (m : β) (r' : Regs) (m' : β) (st : Nat)
+    (hm : stepModel B b0 b1 b2 r m = .ok (r', m', st)) : WF r' := by
+  obtain ⟨_, _, _, _, w, _⟩ := step_refines_model B (memOf B) rfl rfl hB b0 b1 b2 h0 h1 h2 hu r hr m r' m' st hm
+  exact w
+
+/-- `Cpu.runNextOp` (the model tied to the real `run_next_op`) is the fetch followed by `stepModel` on the real bus -/
+theorem run_next_op_is_step (r : Regs) (s : Bus.State) :
+    Cpu.runNextOp r s =
+      (Cpu.fetch3 s r.ip).bind fun b =>
+        (stepModel Cpu.busOps b.1 b.2.1 b.2.2 r s).map fun x =>
+          (x.1, x.2.1, x.2.2, Gen.isBlockEnd (Gen.decode b.1 b.2.1 b.2.2).1) :=
+  runNextOp_eq r s
+
+/-! ### a concrete instance of the hypotheses: the total byte memory `toyBus` of `Proofs/Sm83Main.lean` as the bus -/
+
+/-- SBC A,(HL) with A = 0x10, carry set, (HL) = 0x0F: the interpreter gives A = 0x00, F = Z N H (0xE0), PC + 1, 2 cycles,
+and this is what the theorem predicts from the SM83 instruction -/
+example :
+    (stepModel toyBus 0x9E 0 0 { af := 0x1010, hl := 0xC000, sp := 0xFFFE, ip := 0xFFFF, cycles := 7 } (fun _ => 0x0F)).map
+      (fun x => (x.1, x.2.2)) = .ok ({ af := 0x00E0, hl := 0xC000, sp := 0xFFFE, ip := 0x0000, cycles := 9 }, 0) := by
+  rfl
+
+example : ∃ r', stepModel toyBus 0x9E 0 0 { af := 0x1010, hl := 0xC000, sp := 0xFFFE, ip := 0xFFFF, cycles := 7 } (fun _ => 0x0F) =
+    .ok (r', fun _ => 0x0F, 0) ∧ WF r' ∧ r'.cycles = 7 + 2 := by
+  have h := (step_refines_spec toyBus (memOf toyBus) rfl rfl toyBus_bytes 0x9E 0 0 (by decide) (by decide) (by decide)
+    (by decide) { af := 0x1010, hl := 0xC000, sp := 0xFFFE, ip := 0xFFFF, cycles := 7 } (by unfold WF; decide) (fun _ => 0x0F)).1
+    _ _ 2 .normal rfl
+  obtain ⟨r', e, _, w, c⟩ := h
+  exact ⟨r', e, w, c⟩
 
 end GbVerif.C05
